@@ -230,7 +230,9 @@ theorem stepDelete_spec (s : State) (c : CfgId) (k : Key) :
       match s.cfgs[c]? with
       | some cs =>
         if cs.canceled then
-          some { s with pool := poolDelete s.pool k, cfgs := s.cfgs.set c { cs with held := cs.held.erase k } }
+          if cs.held.contains k then
+            some { s with pool := poolDelete s.pool k, cfgs := s.cfgs.set c { cs with held := cs.held.erase k } }
+          else some s
         else none
       | none => none := by
   unfold stepDelete
@@ -242,21 +244,27 @@ theorem stepDelete_spec (s : State) (c : CfgId) (k : Key) :
     | false => simp
     | true =>
       simp only [if_true]
-      cases hp : s.pool k with
-      | none => simp [poolDelete, hp]
-      | some v =>
-        obtain ⟨o, n⟩ := v
-        by_cases hn : n ≤ 1 <;> simp [poolDelete, hp, hn]
+      cases hh : cs.held.contains k with
+      | false => simp
+      | true =>
+        simp only [if_true]
+        cases hp : s.pool k with
+        | none => simp [poolDelete, hp]
+        | some v =>
+          obtain ⟨o, n⟩ := v
+          by_cases hn : n ≤ 1 <;> simp [poolDelete, hp, hn]
 
 theorem inv_delete {s s' : State} {c k} (hi : Inv s) (hs : stepDelete s c k = some s') : Inv s' := by
   rw [stepDelete_spec] at hs
   split at hs
   next cs hcs =>
     split at hs
-    · simp at hs; subst hs
-      refine inv_cfg_only hi rfl rfl rfl rfl rfl ?_
-      intro x hx
-      exact canceled_set x _ hcs rfl (by simp) hx
+    · split at hs
+      · simp at hs; subst hs
+        refine inv_cfg_only hi rfl rfl rfl rfl rfl ?_
+        intro x hx
+        exact canceled_set x _ hcs rfl (by simp) hx
+      · simp at hs; subst hs; exact hi
     · simp at hs
   next => simp at hs
 
@@ -825,10 +833,5 @@ theorem inv_reachable {s : State} (h : Reachable s) : Inv s := by
   induction h with
   | init => exact inv_init
   | step a _ hs ih => exact inv_step a ih hs
-
-theorem reachableM_reachable {s : State} (h : ReachableM s) : Reachable s := by
-  induction h with
-  | init => exact Reachable.init
-  | step a _ _ hs ih => exact Reachable.step a ih hs
 
 end CaddyModel.C09
